@@ -53,6 +53,10 @@ def weights_st(draw, n, kinds=("none", "int", "dyadic", "zeroheavy")):
         return draw(st.lists(st.integers(0, 4), min_size=n, max_size=n))
     if kind == "dyadic":
         return draw(st.lists(st.sampled_from(DYADIC), min_size=n, max_size=n))
+    if kind == "tenths":
+        # not exactly representable: sums depend (in the last bit) on the order of addition
+        return draw(st.lists(st.sampled_from([0.1, 0.2, 0.3, 0.7, 1.1, 1.3, 2.9]),
+                             min_size=n, max_size=n))
     return draw(st.lists(st.sampled_from([0, 0, 0, 1, 0.5, 2]), min_size=n, max_size=n))
 
 
